@@ -7,6 +7,8 @@
 #[path = "/repo/nexosim/src/loom_exports.rs"]
 mod loom_exports;
 
+#[path = "../../lowlab/src/harness/crashguard.rs"]
+mod crashguard;
 mod core;
 mod fclass;
 mod lowprops;
@@ -450,6 +452,10 @@ fn main() {
     let p: &'static str = Box::leak(p.into_boxed_str());
     let wd = std::env::var("VERIF_WATCHDOG_S").ok().and_then(|s| s.parse().ok()).unwrap_or(120);
     let _ = ENGINE.set("simlab");
+    // a fatal signal (abort on a double panic, SIGSEGV) while a case is being evaluated is
+    // reported with that case as the replay file instead of an anonymous crash
+    crashguard::install(p);
+    let _ = CRASH_HOOK.set(|body: &str| crashguard::set_current_body(body));
     start_watchdog(wd);
     std::process::exit(run_property(p, &tier, seed));
 }
